@@ -17,6 +17,7 @@ LEVEL_NOTE = ('Trusted: Cython-subset front-end, interpreter, our transcription 
 EXPLANATION = ('R07.1 modulus * J_ref == 1 on the main branch, 7 models; R07.2 legacy compliance == J_ref under compliance = 1/mu, Voigt offset = 1/scale; R07.3 guard returns == limits (rational models), '
                'Maxwell-family guards agree; R07.4 Re J >= 1/mu and Im J <= 0 from the form of J_ref; R07.5 access paths, no writes to self in _implementation, exhaustive find_rheology.')
 EXPLANATION += ' R07.7 the array twin: every interpreted call repeated with array arguments (mutable cells) returns the scalar values element for element and leaves the arguments intact.'
+EXPLANATION += ' R07.8 every float_eps guard of a legacy compliance function is evaluated at the corners of the stated parameter range (omega 1e-12..1e2, mu 1e3..1e13, eta 1..1e30): a guard taken inside the range must leave the value equal to the published law; the failing corner is the witness.'
 
 MODELS = ('Elastic', 'Newton', 'Maxwell', 'Voigt', 'Burgers', 'Andrade', 'SundbergCooper')
 NARGS = {'Elastic': 0, 'Newton': 0, 'Maxwell': 0, 'Voigt': 2, 'Burgers': 2, 'Andrade': 2, 'SundbergCooper': 4}
